@@ -22,6 +22,8 @@ ASSUME = [
     "comma-list options (RouterList etc.) are outside the exploration: Tor stores them as one comma-joined value, not as repeated lines",
     "in every fifth C11 execution another controller changes an option while our bootstrap is still reading the configuration (the "
     "GETCONF answer carries the old value, the announcement the new one): the attached view must show the new one",
+    "half of the offline-populated configurations are first asked for the option under its usual spelling (a read that fails), then given "
+    "it under another spelling, then attached - what launch() does with a caller's configuration",
     "in every fourth random C11 script a line-list option may hold one value that is the empty text (Tor answers / announces 'Log=' "
     "rather than 'Log'): reads must return that one empty value, not the default; the user does not edit or assign such a value",
 ]
@@ -192,6 +194,8 @@ def run(pid, tier, seed):
             pick["l1"] = min(pick["l1"], 1)
         if pid == "C11" and i % 7 == 5 and not pick["offline"]:
             pick["extral"] = True       # the application adds an event listener of its own while the bootstrap starts
+        if pid == "C11" and pick["offline"] and i % 8 >= 4:
+            pick["probe"] = True        # the offline config is first asked for the option under the usual spelling (as launch() does)
         if pid == "C11" and i % 5 == 2:
             pick["midboot"] = ["s2", "l1", "s1"][(i // 5) % 3]       # a change by another controller during our bootstrap
         traces.append(cfgh.replay(s, pick))
